@@ -8,6 +8,10 @@ import LW.Model.Base64
 import LW.Model.Exchange
 import LW.Model.NetID
 import LW.Driver.BandOps
+import LW.Model.Misc
+import LW.Model.Frag
+import LW.Generated.LeapTable
+import LW.Generated.EirpTable
 namespace LW.Driver
 open LW LW.Canon
 
@@ -142,6 +146,16 @@ def runOp (st : DState) (op : String) (args : List String) : DState × String :=
       else if how == "scan" then (match unhx a with | some b => out (idOfScan len b) | none => badop "hex")
       else "ERR")
   | "bq" => (st, bandQuery args)
+  | "gpsto" => (st, withArgs args int fun t => s!"ok {toGPS Generated.leapTable t}")
+  | "gpsfrom" => (st, withArgs args int fun d => s!"ok {fromGPS Generated.leapTable d}")
+  | "airtime" => (st, withArgs args (do let a ← int; let b ← int; let c ← int; let d ← int; let e ← int; let f ← int; let g ← int; pure (a, b, c, d, e, f, g))
+      fun (pl, sf, bw, pre, cr, h, de) => fmtOut toString (airtime pl sf bw pre cr (h != 0) (de != 0)))
+  | "paysym" => (st, withArgs args (do let a ← int; let b ← int; let c ← int; let d ← int; let e ← int; pure (a, b, c, d, e))
+      fun (pl, sf, cr, h, de) => fmtOut toString (payloadSymbols pl sf cr (h != 0) (de != 0)))
+  | "eirpidx" => (st, withArgs args nat fun b => s!"ok {eirpIndex Generated.eirpTable (f32OfBits b)}")
+  | "eirpval" => (st, withArgs args nat fun i => fmtOut toString (eirpOfIndex Generated.eirpTable i))
+  | "fragenc" => (st, withArgs args (do let s ← int; let r ← int; let d ← hex; pure (s, r, d)) fun (s, r, d) =>
+      fmtOut (fun rows => " ".intercalate (toString rows.length :: rows.map hx)) (encode d s r))
   | "exchange" => (st, withArgs args (do
         let v ← nat; let c ← nat; let dr ← nat; let ch ← nat; let fk ← key; let sk ← key; let ek ← key; let ak ← key
         let t ← nat; let p ← frame
